@@ -1,5 +1,5 @@
 SPECIFICATION SpecSim
 CONSTANTS MaxLen = 48
 Alphabet <- AlphaAll
-INVARIANTS NormalFormSafe NormalFormFixed IdentitySafe AsIsIndexSafe AsIsOKOutsideKnown FixedOK
+INVARIANTS NormalFormSafe NormalFormFixed IdentitySafe AsIsOK OldIndexSafe OldWrongOnlyOnKnown
 CHECK_DEADLOCK FALSE
